@@ -35,13 +35,47 @@ def val_nodes(v):
             yield from val_nodes(b)
 
 
+def accepts_undefined(r, envd, depth=0):
+    t = r[0]
+    if depth > 8: return False
+    if t in ("Any", "Nullish"): return True
+    if t == "Const": return r[1] is None
+    if t == "AnyOfConsts": return any(x is None for x in r[1])
+    if t == "AnyOf": return any(accepts_undefined(x, envd, depth + 1) for x in r[1])
+    if t == "AllOf": return False
+    if t == "Meta": return accepts_undefined(r[2], envd, depth + 1)
+    if t == "Ref" and r[1] in envd: return accepts_undefined(envd[r[1]], envd, depth + 1)
+    return False
+
+
+def only_nullish(r, envd, depth=0):
+    t = r[0]
+    if depth > 8: return False
+    if t == "Nullish": return True
+    if t == "Const": return r[1] is None
+    if t == "AnyOfConsts": return bool(r[1]) and all(x is None for x in r[1])
+    if t == "AnyOf": return bool(r[1]) and all(only_nullish(x, envd, depth + 1) for x in r[1])
+    if t == "Meta": return only_nullish(r[2], envd, depth + 1)
+    if t == "Ref" and r[1] in envd: return only_nullish(envd[r[1]], envd, depth + 1)
+    return False
+
+
 def tree_tags(c):
     tags = set()
+    envd = dict(c["env"])
+    for r in [c["rt"]] + [b for _, b in c["env"]]:
+        for n in rt_nodes(r):
+            if n[0] == "Object" and any(x[0] != "Optional" and accepts_undefined(x, envd) for _, x in n[1]):
+                tags.add("RequiredAcceptsUndefined")
+            if n[0] == "Object" and any(x[0] == "Optional" and only_nullish(x[1], envd) for _, x in n[1]):
+                tags.add("OptionalNullish")
     for r in [c["rt"]] + [b for _, b in c["env"]]:
         for n in rt_nodes(r):
             tags.add(n[0])
             if n[0] == "Object" and n[2]:
                 tags.add("Index")
+            if n[0] == "Object" and any(k in PROTO_NAMES or k == "__proto__" for k, _ in n[1]):
+                tags.add("ProtoKey")
     return tags
 
 
